@@ -317,12 +317,19 @@ func init() {
 	// os.Stat: documented-contract stub "the file does not exist" (the checks never create files);
 	// the message is the one *PathError renders natively.
 	externals["os.Stat"] = func(fr *frame, args []value) value {
-		name, ok := args[0].(string)
-		if !ok {
-			name = "<symbolic>"
+		var msg value
+		switch x := args[0].(type) {
+		case string:
+			msg = "stat " + x + ": no such file or directory"
+		case symstr:
+			m := append(symstr{}, toSymstr("stat ")...)
+			m = append(m, x...)
+			msg = normStr(append(m, toSymstr(": no such file or directory")...))
+		default:
+			msg = "stat <symbolic>: no such file or directory"
 		}
 		errorsPkg := fr.i.prog.ImportedPackage("errors")
-		e := call(fr.i, fr, token.NoPos, errorsPkg.Func("New"), []value{"stat " + name + ": no such file or directory"})
+		e := call(fr.i, fr, token.NoPos, errorsPkg.Func("New"), []value{msg})
 		if explorer != nil && explorer.stubsUsed != nil {
 			explorer.stubsUsed["os.Stat (always: no such file)"] = true
 		}
